@@ -139,6 +139,49 @@ def run(db, cx):
         {"generate", "start", "end"},
         "only generate/start/end actions may create tracks or recycle slots")
 
+    # 2b ----------------------------- a secondary is born exactly where/when/as it was emitted
+    want = {
+        "ParticleTrackInitializer::energy": ("F", C + "Secondary::energy"),
+        "ParticleTrackInitializer::particle_id": ("F", C + "Secondary::particle_id"),
+        "GeoTrackInitializer::dir": ("F", C + "Secondary::direction"),
+        "GeoTrackInitializer::pos": ("C", C + "OrangeTrackView::pos"),
+        "SimTrackInitializer::time": ("C", C + "SimTrackView::time"),
+        "SimTrackInitializer::event_id": ("C", C + "SimTrackView::event_id"),
+    }
+    psx = [f for f in db.get(D + "ProcessSecondariesExecutor::operator()")
+           if f.has_call(C + "SimTrackView::operator=")]
+    cx.require(psx, "ProcessSecondariesExecutor body not found")
+    for f in psx:
+        for fld, (kind, src) in sorted(want.items()):
+            ws = [e for (_b, _i, e) in f.events("write") if path_leaf(e.get("path")) == C + fld]
+            ok = len(ws) == 1
+            if ok:
+                e = ws[0]
+                if kind == "F":
+                    ok = "F:" + src in e.get("refs", []) and not [c_ for c_ in e.get("calls", [])
+                                                                 if not c_.endswith("operator=")] \
+                        and not any(ch in e.get("rhs", "").replace("->", ".") for ch in "+-*/")
+                else:
+                    calls = [c_ for c_ in e.get("calls", []) if not c_.endswith("operator=")]
+                    ok = calls == [src] and not any(ch in e.get("rhs", "").replace("->", ".") for ch in "+-*/")
+            cx.ob("C02.2-secondary-handoff", "initializer %s is exactly the %s" % (
+                fld.split("::")[-1], src.split("::", 1)[1]), ok,
+                "%s" % [e.get("rhs") for e in ws], short(f.loc),
+                why="each secondary must become a track with the energy, type, direction, position, "
+                    "time and event it was emitted with (per-track energy balance and step "
+                    "continuity start from these values)")
+        pw = [e for (_b, _i, e) in f.events("write") if path_leaf(e.get("path")) == C + "SimTrackInitializer::parent_id"]
+        okp = len(pw) == 1
+        if okp:
+            v = local_refs(pw[0].get("refs", []))
+            okp = len(v) == 1 and all(C + "SimTrackView::track_id" in d_[2].get("calls", [])
+                                      for d_ in f.reaching_defs(next(iter(v)), (f.entry, 0)) or [(0, 0, {"calls": []})])
+            defs = [e for (_b, _i, e) in f.events("def") if e.get("var") in v]
+            okp = len(v) == 1 and bool(defs) and all(C + "SimTrackView::track_id" in e.get("calls", []) for e in defs)
+        cx.ob("C02.2-secondary-handoff", "initializer parent_id is the emitting track's id", okp,
+              "%s" % [e.get("rhs") for e in pw], short(f.loc),
+              why="every secondary must have an existing parent")
+
     # 3b ----------------------------------- index array re-sequenced before every partition
     n_part = 0
     for f in db.get(C + "InitializeTracksAction::step_impl"):
